@@ -898,7 +898,7 @@ impl<'a> LabelValue<'a> {
             self.target.buf.push_str(", ");
         }
         write!(
-            &mut self.target.buf, "{name}=\"{value}\""
+            &mut self.target.buf, "{name}=\"{}\"", label_value(value)
         ).expect("writing to string");
         self
     }
@@ -908,6 +908,42 @@ impl<'a> LabelValue<'a> {
             &mut self.target.buf, "}} {value}"
         ).expect("writing to string");
     }
+}
+
+
+//------------ label_value ---------------------------------------------------
+
+/// Returns a value that displays `val` escaped for use as a label value.
+///
+/// The text exposition format requires backslash, double quote, and line
+/// feed to be escaped in label values.
+fn label_value(val: impl fmt::Display) -> impl fmt::Display {
+    struct WriteLabelValue<'a, 'f>(&'a mut fmt::Formatter<'f>);
+
+    impl fmt::Write for WriteLabelValue<'_, '_> {
+        fn write_str(&mut self, mut s: &str) -> fmt::Result {
+            while let Some(idx) = s.find(['\\', '"', '\n']) {
+                self.0.write_str(&s[..idx])?;
+                self.0.write_str(match s.as_bytes()[idx] {
+                    b'\n' => "\\n",
+                    b'"' => "\\\"",
+                    _ => "\\\\",
+                })?;
+                s = &s[idx + 1..];
+            }
+            self.0.write_str(s)
+        }
+    }
+
+    struct LabelValueStr<T>(T);
+
+    impl<T: fmt::Display> fmt::Display for LabelValueStr<T> {
+        fn fmt(&self, f: &mut fmt::Formatter) -> fmt::Result {
+            write!(&mut WriteLabelValue(f), "{}", self.0)
+        }
+    }
+
+    LabelValueStr(val)
 }
 
 
